@@ -108,7 +108,7 @@ class Check:
             for f in fs:
                 if f.endswith(".v"):
                     p = os.path.join(d, f)
-                    txt = strip_coq_comments(open(p).read())
+                    txt = strip_coq_strings(strip_coq_comments(open(p).read()))
                     for m in FORBIDDEN.finditer(txt):
                         bad.append("%s: %s" % (os.path.relpath(p, ROOT), m.group(0)))
         cp = open(os.path.join(COQ, "_CoqProject")).read()
@@ -440,6 +440,11 @@ def strip_coq_comments(s):
             out.append(s[i])
         i += 1
     return "".join(out)
+
+
+def strip_coq_strings(s):
+    """blank out string literals (generated files carry Go identifiers such as "admit" inside strings)"""
+    return re.sub(r'"(?:[^"]|"")*"', '""', s)
 
 
 # ---- Coq term helpers
